@@ -218,7 +218,7 @@ def _binary_inverts(b, ba):
     return ''
 
 
-@cond(quick=dict(timeout=90, parts=dict(N=[0, 1])), thorough=dict(timeout=1200, parts=dict(N=[0, 1, 2])))
+@cond(quick=dict(timeout=90, parts=dict(N=[0, 1])), thorough=dict(timeout=300, parts=dict(N=[0, 1])))
 def binary_inverts(b: bytes, ba: bool) -> str:
     """
     pre: len(b) == P.N
